@@ -232,6 +232,47 @@ pub fn run(tier: Tier, shard: Shard, stats: &mut Stats) {
             }
         }
     }
+    // very wide terminals, and a {bar:N} line after the {wide_bar} line (each line has its own elements only)
+    for tw in [100u16, 512, 513, 1000, 4000, u16::MAX] {
+        case += 1;
+        if !shard.owns(case) {
+            continue;
+        }
+        let catcher = LineCatcher::new(tw);
+        for c in [1usize, 2] {
+            let set = charset(3, c);
+            let set_s: String = set.iter().collect();
+            let tpl = "x{wide_bar}\n|{bar:6}|{pos}";
+            stats.evaluations += 1;
+            stats.transitions += 1;
+            let hist = vec![tpl.to_string(), format!("terminal width {tw}"), format!("progress_chars {:?}", set_s), "pos 3 len 7".to_string()];
+            match catch(|| {
+                let pb = bar_on(&catcher, Some(7), ProgressStyle::with_template(tpl).unwrap().progress_chars(&set_s)).with_position(3);
+                let l = frame_lines(&catcher, &pb);
+                pb.abandon();
+                l
+            }) {
+                Err(p) => stats.violation(Violation { class: format!("panic: {}", panic_class(&p)), config: "wide_bar+line".into(), history: hist, detail: p }),
+                Ok(lines) => {
+                    let first = lines.first().cloned().unwrap_or_default();
+                    let cols: usize = first.chars().map(|ch| if ch == 'x' || c == 1 { 1 } else { 2 }).sum();
+                    let w = tw as usize;
+                    let want = w - ((w - 1) % c);
+                    let second = lines.get(1).cloned().unwrap_or_default();
+                    let inner = second.strip_prefix('|').and_then(|l| l.strip_suffix("|3")).map(|s| s.to_string());
+                    if cols != want {
+                        let class = if cols > w { "wide_bar: line wider than the terminal" } else { "wide_bar: line does not fill the terminal width" };
+                        stats.violation(Violation { class: class.into(), config: "wide_bar+line".into(), history: hist, detail: format!("{cols} columns, expected {want}") });
+                    } else {
+                        match inner.ok_or(("frame: the line after the wide_bar line is not its own template line".to_string(), second.clone())).and_then(|i| judge(&i, &set, 6, c, 3, 7)) {
+                            Ok((filled, partial)) => stats.state_outcome(hash_of(&("wide+line", tw, c, filled, partial)), true),
+                            Err((class, detail)) => stats.violation(Violation { class: format!("line after wide_bar: {class}"), config: "wide_bar+line".into(), history: hist, detail }),
+                        }
+                    }
+                }
+            }
+        }
+    }
     // wide_bar next to a fixed-width, non-truncating field that its content overflows
     for tw in 10..=30u16 {
         case += 1;
